@@ -92,10 +92,20 @@ def coq_project():
 
 def coq_make(targets, timeout=1500):
     """Full .vo build of the targets (and their dependencies). Returns (ok, log, secs)."""
-    with Lock("coq"):
-        coq_project()
-        rc, out, dt = sh(["make", "-f", "Makefile.coq", f"-j{NPROC}", "--no-print-directory"] + targets,
-                         cwd=COQ, timeout=timeout)
+    for attempt in range(3):
+        with Lock("coq"):
+            coq_project()
+            rc, out, dt = sh(["make", "-f", "Makefile.coq", f"-j{NPROC}", "--no-print-directory"] + targets,
+                             cwd=COQ, timeout=timeout)
+        if rc != 0 and "No rule to make target" in out and attempt < 2:
+            # the file list changed under us (a generated file was rewritten/removed): regenerate and retry
+            try:
+                os.remove(os.path.join(COQ, "_CoqProject"))
+            except FileNotFoundError:
+                pass
+            time.sleep(1.0)
+            continue
+        break
     return rc == 0, out, dt
 
 
@@ -492,9 +502,9 @@ def main(argv=None):
         ctx.trusted.append("Print Assumptions: " + ("all theorems closed under the global context" if not axioms_seen else json.dumps(axioms_seen)))
         ctx.trusted.append(f"Coq files in the closure of {rel}: {len(closure)}")
         if a.tier == "thorough" and ok and okp and os.environ.get("VERIF_COQCHK", "1") == "1":
-            rc, out, dt = sh(["timeout", "1500", "coqchk", "-silent", "-o", "-Q", ".", "AV", f"AV.Props.{prop}"], cwd=COQ, timeout=1600)
+            rc, out, dt = sh(["timeout", "1500", "coqchk", "-o", "-Q", ".", "AV", f"AV.Props.{prop}"], cwd=COQ, timeout=1600)
             tail = out[-3000:]
-            ctx.checker_cmds.append(f"cd coq && coqchk -silent -o -Q . AV AV.Props.{prop}  (rc={rc}, {dt:.0f}s)")
+            ctx.checker_cmds.append(f"cd coq && coqchk -o -Q . AV AV.Props.{prop}  (rc={rc}, {dt:.0f}s)")
             okchk = rc == 0 and "Modules were successfully checked" in out
             ctx.oblige("coqchk", "proof", okchk, tail)
             m = re.search(r"\* Axioms:(.*?)(\n\n|\Z)", out, re.S)
